@@ -50,9 +50,15 @@ def c_cond(c):
         n(c["type"]), n(c["status"]), n(c["obsgen"]), cB(not c.get("bare", False)))
 
 
+def c_label(label, lother):
+    if label:
+        return "LTrue"
+    return "(LOther %s)" % n(lother) if lother else "LAbsent"
+
+
 def c_obj(o):
-    return "{| o_data := %s; o_label := %s; o_ctrl := %s; o_gen := %s; o_sobs := %s; o_conds := %s |}" % (
-        c_data(o["data"]), cB(o["label"]), n(o["ctrl"]), n(o["gen"]), cO(None if o.get("sobs") is None else n(o["sobs"])),
+    return "{| o_data := %s; o_lbl := %s; o_ctrl := %s; o_gen := %s; o_sobs := %s; o_conds := %s |}" % (
+        c_data(o["data"]), c_label(o["label"], o.get("lother", 0)), n(o["ctrl"]), n(o["gen"]), cO(None if o.get("sobs") is None else n(o["sobs"])),
         cL([c_cond(c) for c in o.get("conds") or []]))
 
 
@@ -74,10 +80,10 @@ def c_tmpl(tns, spec, st):
 
 
 def c_world(tns, spec, snap, env):
-    return "{| w_store := %s; w_tmpl := %s; w_watch := %s; w_env := %s |}" % (
+    return "{| w_store := %s; w_tmpl := %s; w_watch := %s; w_env := %s; w_pending := %s |}" % (
         cL([cP(c_key(o["key"]), c_obj(o)) for o in snap["store"]]),
         cO(None if snap["tmpl"] is None else c_tmpl(tns, spec, snap["tmpl"])),
-        cL([cP(n(a), n(b)) for a, b in snap["watch"]]), n(env))
+        cL([cP(n(a), n(b)) for a, b in snap["watch"]]), n(env), cB(snap.get("pending", False)))
 
 
 RES = {"ok": "WOk", "AlreadyExists": "WAlreadyExists", "BadRequest": "WBadRequest"}
@@ -109,7 +115,7 @@ def c_ev(e):
 def c_step(st):
     op = st["op"]
     if op == "put":
-        return "(SPut %s %s %s)" % (c_key(st["key"]), c_data(st["data"]), cB(st.get("label", False)))
+        return "(SPut %s %s %s)" % (c_key(st["key"]), c_data(st["data"]), c_label(st.get("label", False), st.get("lother", 0)))
     if op == "del":
         return "(SDel %s)" % c_key(st["key"])
     if op == "poke":
@@ -123,6 +129,8 @@ def c_step(st):
         return "(SEnv %s)" % n(st["env"])
     if op == "pass":
         return "SPass"
+    if op == "drain":
+        return "SDrain"
     raise Unrep(op)
 
 
@@ -179,15 +187,19 @@ def T(ns, sources, c, **kw):
     return d
 
 
-def O(key, data, label=False, ctrl=0, gen=1, sobs=None, conds=()):
-    return {"key": list(key), "data": [list(x) for x in data], "label": label, "ctrl": ctrl, "gen": gen, "sobs": sobs, "conds": list(conds)}
+def O(key, data, label=False, ctrl=0, gen=1, sobs=None, conds=(), lother=0):
+    return {"key": list(key), "data": [list(x) for x in data], "label": label, "lother": 0 if label else lother, "ctrl": ctrl, "gen": gen,
+            "sobs": sobs, "conds": list(conds)}
 
 
 P = {"op": "pass"}
 
 
-def put(key, data, label=False):
-    return {"op": "put", "key": list(key), "data": [list(x) for x in data], "label": label}
+D = {"op": "drain"}
+
+
+def put(key, data, label=False, lother=0):
+    return {"op": "put", "key": list(key), "data": [list(x) for x in data], "label": label, "lother": 0 if label else lother}
 
 
 def scen(tns, tmpl, store, steps, watch=(), env=1, iv=(30, 60)):
@@ -235,6 +247,20 @@ def corpus():
         scen(1, T(1, [S(1, 0, 1)], code()), [cm1, O((1, 1, 100), [(1, 1)], label=True, ctrl=2)], [P]),
         scen(1, T(1, [S(1, 0, 1)], code(), gen=3), [cm1, O((1, 1, 100), [(1, 5)], label=True, ctrl=1, gen=2, sobs=3,
              conds=[{"type": 1, "status": 1, "obsgen": 2}, {"type": 2, "status": 0, "obsgen": 1}])], [P, P]),
+        # cache label present with another value than "True" ("true", "False", ""): invisible to the informers; the pass must
+        # re-patch it, and the later edit / deletion must reach the template through the queue alone (drain steps)
+        scen(1, T(1, [S(1, 0, 1)], code()), [O((1, 1, 1), [(1, 5)], lother=2)], [P, put((1, 1, 1), [(1, 6)]), D, D]),
+        scen(1, T(1, [S(1, 0, 1), S(2, 0, 2, items=((1, 2),))], code()),
+             [O((1, 1, 1), [(1, 5)], lother=3), O((2, 1, 2), [(1, 8)], lother=4)],
+             [P, put((2, 1, 2), [(1, 9)]), D, {"op": "del", "key": [1, 1, 1]}, D]),
+        scen(0, T(0, [S(3, 0, 1)], code(kind=3)), [O((3, 0, 1), [(1, 5)], lother=2)], [P, put((3, 0, 1), [(1, 6)]), D]),
+        scen(1, T(1, [S(1, 0, 1, opt=True)], code(form=2, pick=(1,))), [], [P, put((1, 1, 1), [(1, 4)], lother=3), P, put((1, 1, 1), [(1, 5)]), D]),
+        # third party edits / deletes the target: the template is enqueued and restores it
+        scen(1, T(1, [S(1, 0, 1)], code()), [cm1], [P, put((1, 1, 100), [(1, 9)]), D, {"op": "del", "key": [1, 1, 100]}, D]),
+        # existing target carrying the label key with another value: not in the cache, create fails with AlreadyExists
+        scen(1, T(1, [S(1, 0, 1)], code()), [cm1, O((1, 1, 100), [(1, 1)], lother=2)], [P, D]),
+        # idle worker
+        scen(1, T(1, [S(1, 0, 1)], code()), [cm1], [D, P, D]),
         # empty destination in a source item (was a panic before a818a7e): SourceError
         scen(1, T(1, [S(1, 0, 1, items=((1, 0),))], code()), [cm1], [P, P]),
         scen(1, T(1, [S(1, 0, 1, items=((1, 1), (1, 0)))], code()), [cm1], [P]),
@@ -258,7 +284,7 @@ def table(tier):
     thorough: the full product of both. Two passes each (create path, then update path)."""
     import itertools
     out = []
-    src_rows = list(itertools.product((1, 0), (1, 3, 4), (0, 1, 2), ("absent", "plain", "labelled"), (False, True)))
+    src_rows = list(itertools.product((1, 0), (1, 3, 4), (0, 1, 2), ("absent", "plain", "labelled", "other"), (False, True)))
     tgt_rows = list(itertools.product((1, 0), (1, 3, 4), (0, 1, 2), (False, True)))
 
     def one(tns, skind, sns, pres, opt, tkind, tgtns, orefs):
@@ -266,8 +292,11 @@ def table(tier):
         store = []
         if pres != "absent" and skind != 4:
             ns = 0 if skind == 3 else (sns or tns or 1)
-            store.append(O((skind, ns, 1), [(1, 5)], label=pres == "labelled"))
-        return scen(tns, T(tns, [src], code(kind=tkind, ns=tgtns, orefs=orefs)), store, [dict(P), dict(P)])
+            store.append(O((skind, ns, 1), [(1, 5)], label=pres == "labelled", lother=3 if pres == "other" else 0))
+            edit = [put((skind, ns, 1), [(1, 6)]), dict(D)]     # the edit must reach the template through the queue
+        else:
+            edit = []
+        return scen(tns, T(tns, [src], code(kind=tkind, ns=tgtns, orefs=orefs)), store, [dict(P), dict(P)] + edit)
 
     if tier == "quick":
         for tns, skind, sns, pres, opt in src_rows:
@@ -336,14 +365,14 @@ def gen(seed, tier):
             if tuple(k) in seen or not valid_key(k) or r.random() < 0.2:
                 continue
             seen.add(tuple(k))
-            store.append(O(k, data(), label=r.random() < 0.4))
+            store.append(O(k, data(), label=r.random() < 0.35, lother=r.choice([0, 0, 0, 2, 3, 4])))
         tk = tgt_key(tns, c)
         if valid_key(tk) and tuple(tk) not in seen and r.random() < 0.2:
             seen.add(tuple(tk))
             conds = [{"type": r.randint(1, 2), "status": r.randint(0, 1), "obsgen": r.randint(1, 2), "bare": r.random() < 0.15}
                      for _ in range(r.choice([0, 1, 2]))]
-            store.append(O(tk, data(), label=r.random() < 0.7, ctrl=r.choice([0, 1, 1, 2]), gen=r.randint(1, 2),
-                           sobs=r.choice([None, 1, 2]), conds=conds))
+            store.append(O(tk, data(), label=r.random() < 0.65, lother=r.choice([0, 2, 3, 4]), ctrl=r.choice([0, 1, 1, 2]),
+                           gen=r.randint(1, 2), sobs=r.choice([None, 1, 2]), conds=conds))
         tm = T(tns, srcs, c)
         u = r.random()
         if u < 0.03:
@@ -362,14 +391,27 @@ def gen(seed, tier):
                 if r.random() < 0.15:
                     watch.append([kind, owner])
         steps = []
-        for _ in range(r.randint(1, 8)):
+        driven = r.random() < 0.4      # after the first pass the template only runs when the queue holds a request
+        if driven:
+            steps.append(dict(P))
+        for _ in range(r.randint(1, 7 if driven else 8)):
             u = r.random()
+            if driven:
+                cand = [k for k in keys if valid_key(k)] + ([tk] if valid_key(tk) and r.random() < 0.3 else []) or [[1, 1, 1]]
+                k = r.choice(cand)
+                if u < 0.5:
+                    steps.append(put(k, data(), label=r.random() < 0.2, lother=r.choice([0, 0, 2, 3, 4])))
+                elif u < 0.62:
+                    steps.append({"op": "del", "key": k})
+                else:
+                    steps.append(dict(D))
+                continue
             if u < 0.42:
                 steps.append(dict(P))
             elif u < 0.66:
                 cand = [k for k in keys if valid_key(k)] or [[1, 1, 1]]
                 k = r.choice(cand) if r.random() < 0.85 else [r.choice([1, 2]), r.choice([1, 2]), r.randint(1, 3)]
-                steps.append(put(k, data(), label=r.random() < 0.25))
+                steps.append(put(k, data(), label=r.random() < 0.25, lother=r.choice([0, 0, 0, 2, 3, 4])))
             elif u < 0.76:
                 cand = [k for k in keys if valid_key(k)] or [[1, 1, 1]]
                 steps.append({"op": "del", "key": r.choice(cand)})
@@ -390,7 +432,9 @@ def gen(seed, tier):
                     steps.append({"op": "poke", "key": tk, "sobs": r.choice([None, None, 1, 2]), "conds": conds})
                 else:
                     steps.append(dict(P))
-        if r.random() < 0.6:
+        if driven:
+            steps.append(dict(D))
+        elif r.random() < 0.6:
             steps[-1] = dict(P)
         out.append(scen(tns, tm, store, steps, watch=watch, env=r.randint(1, 9),
                         iv=r.choice([(30, 60)] * 6 + [(0, 60), (30, 0), (0, 0)])))
@@ -498,13 +542,15 @@ def check(run, tier, seed, replay=None):
     run.cov["histories_with_former_finding_shape"] = rootown_seen
     run.cov["rule"] = (
         "fixed corpus (one witness per clause, both shapes of the former finding F-C18, which must pass now) first, then the exhaustive one-source / one-target "
-        "reference table (template scope x source kind x source namespace x absent/unlabelled/labelled x optional, and template "
+        "reference table (template scope x source kind x source namespace x absent/unlabelled/labelled/labelled with another value x optional, each followed by an edit of the source and a worker step, and template "
         "scope x target kind x rendered namespace x owner references; thorough: their full product), then seeded random histories: namespaced "
         "(3/4) or cluster-scoped template, 0-3 sources (ConfigMap / Secret / cluster-scoped kind / unregistered kind; namespace "
         "empty, own, other; required or optional; 1-2 items), template from the family x target kind x rendered namespace x "
         "owner references, arbitrary initial template state (finalizer, Invalid condition, conditions, controllerOf, deleting), "
         "pre-existing targets and cache owners, 1-8 steps of source create/edit/delete, target status writes, template edit, "
-        "template delete, environment change and controller passes; one evaluation = one history judged in Coq (agreement of "
+        "template delete, environment change and controller passes; objects carry the cache label with the exact value, with "
+        "another value (\"true\", \"False\", \"\") or not at all; 40% of the random histories are queue-driven (one pass, then source / "
+        "target edits and deletions with the worker running a pass only when the recording queue holds a request); one evaluation = one history judged in Coq (agreement of "
         "every step + 9 monitor clauses); non-trivial = at least two steps; distinct = (scope, per step: "
         "write/cache events with results, requeue, error class, Invalid | enqueued)")
     run.cov["samples"] = [slim(scs[i], outs[i]["obs"]) for i in idx[:2]]
